@@ -120,8 +120,9 @@ def h_dsort(nrows, ncols, how, kinds = CELLK):
         d, cols = mk_table(c, nrows, ncols, kinds)
         if 'nan' in kinds and nrows: c.cover('a-nan-key', X.Or([V.is_nan(v) for j in range(ncols) for v in cols['k%d' % j]]))
         keys = ['k%d' % j for j in range(ncols)]
+        if how == 'list-rev': keys = keys[::-1]               # the keys in another order than their names sort
         if how == 'cols': r = d.sort(*keys)
-        elif how == 'list': r = d.sort(keys)
+        elif how in ('list', 'list-rev'): r = d.sort(list(keys))
         else: r = d.sort(lambda k0: k0)
         rid = list(r['rid'])
         c.check('permutation-of-rows', sorted(rid) == list(range(nrows)))
@@ -183,6 +184,9 @@ def obligations(tier):
             if nrows >= 3 and ncols == 2 and (q or how == 'list' or nrows > 3): continue
             obs.append(Ob('dictable.sort.%s.%dx%d' % (how, nrows, ncols), h_dsort(nrows, ncols, how), setup = setup, budget_s = 300 if nrows < 4 else 1500,
                           desc = 'dictable.sort by %d key column(s) (%s), %d rows: stable permutation ordered under cmp, idempotent' % (ncols, how, nrows)))
+    for nrows in range(2, 4 if q else 5):
+        obs.append(Ob('dictable.sort.list-reversed.%dx2' % nrows, h_dsort(nrows, 2, 'list-rev', ['int']), setup = setup, budget_s = 300 if nrows < 4 else 1500,
+                      desc = 'dictable.sort([k1, k0]) (a list of keys whose order differs from the alphabetical order of their names), %d rows: ordered by the keys as given' % nrows))
     for nrows in range(2, 4 if q else 5):
         for ncols in (1, 2):
             if ncols == 2 and nrows > (2 if q else 3): continue
